@@ -7,7 +7,7 @@ use super::{
 };
 use crate::{
     error::{WriterError, WriterResult},
-    model::{Namespace, field::resolve_type, node::RustNode},
+    model::{Namespace, field::resolve_type, node::RustNode, structures::RustType},
     reader::{WELL_KNOWN_NAMESPACES, WriteXml},
 };
 use roxmltree::{Document, Node};
@@ -160,16 +160,19 @@ impl RustDocument {
         start_node: &Node<'n, 'n>,
         xml_name: &str,
         namespace: Option<&Namespace>,
+        kind: ComponentKind,
     ) -> Option<Rc<RustNode>> {
         let rust_node = self.nodes.iter().chain(self.known_nodes.iter()).find(|node| {
-            node.rust_type.xml_name().is_some_and(|n| n == xml_name) && node.in_namespace.as_deref() == namespace
+            node.rust_type.xml_name().is_some_and(|n| n == xml_name)
+                && node.in_namespace.as_deref() == namespace
+                && kind.matches_type(&node.rust_type)
         });
 
         if let Some(rust_node) = rust_node {
             return Some(rust_node.clone());
         }
 
-        let alt_node = try_to_find_node_by_xml_name_in_xml_doc(start_node, xml_name, namespace, self).ok()?;
+        let alt_node = try_to_find_node_by_xml_name_in_xml_doc(start_node, xml_name, namespace, kind, self).ok()?;
         Some(alt_node.into())
     }
 
@@ -183,6 +186,33 @@ impl RustDocument {
 
     pub fn find_binding_by_xml_name(&self, xml_name: &str, _namespace: Option<&Namespace>) -> Option<&Rc<SoapBinding>> {
         self.soap_bindings.iter().find(|port| port.name == xml_name)
+    }
+}
+
+/// The symbol space a name is looked up in: XSD keeps types and elements apart, so a type and an
+/// element may share a name.
+#[derive(Clone, Copy, PartialEq, Debug)]
+pub enum ComponentKind {
+    Type,
+    Element,
+    Any,
+}
+
+impl ComponentKind {
+    fn matches_type(self, rust_type: &RustType) -> bool {
+        match self {
+            ComponentKind::Type => matches!(rust_type, RustType::Complex(_) | RustType::Simple(_)),
+            ComponentKind::Element => matches!(rust_type, RustType::Element(_)),
+            ComponentKind::Any => true,
+        }
+    }
+
+    fn matches_tag(self, tag_name: &str) -> bool {
+        match self {
+            ComponentKind::Type => matches!(tag_name, "complexType" | "simpleType"),
+            ComponentKind::Element => tag_name == "element",
+            ComponentKind::Any => true,
+        }
     }
 }
 
@@ -201,7 +231,8 @@ fn create_mod_name_for_namespace(abbreviation: &str) -> String {
 fn try_to_find_node_by_xml_name_in_xml_doc<'n>(
     start_node: &'n Node<'n, 'n>,
     xml_name: &str,
-    _namespace: Option<&Namespace>,
+    namespace: Option<&Namespace>,
+    kind: ComponentKind,
     doc: &mut RustDocument,
 ) -> WriterResult<RustNode> {
     // get to the root of the document from the start node
@@ -213,6 +244,20 @@ fn try_to_find_node_by_xml_name_in_xml_doc<'n>(
     // iterate over all subsequent nodes in the XML tree to find the node with the given name
     for node in start_node.descendants() {
         if node.is_element() {
+            // only a global component (a child of a schema) of the wanted kind and namespace can
+            // be meant: not a local element, attribute or message part that carries the same name
+            let Some(schema) = node.parent().filter(|p| p.tag_name().name() == "schema") else {
+                continue;
+            };
+            if !kind.matches_tag(node.tag_name().name()) {
+                continue;
+            }
+            if let (Some(namespace), Some(schema_namespace)) = (namespace, schema.attribute("targetNamespace")) {
+                if namespace.namespace != schema_namespace {
+                    continue;
+                }
+            }
+
             // do a quick check on the name of the node, so we can skip the more expensive try_from_node
             if let Some(node_name) = node.attribute("name") {
                 let (node_name, _node_namespace) = resolve_type(node_name, doc);
